@@ -1039,6 +1039,36 @@ pub(super) async fn generate_block_txs<S: StateRead>(
             }
         }
     }
+    // a busy block: dozens of small rollup data submissions from several signers, interleaved over a few rollup ids (every rollup
+    // submits many times, out of id order), so that per-rollup order inside a block is exercised well beyond a handful of items
+    if matches!(profile, "rollups" | "mixed") && rng.gen_bool(if profile == "rollups" { 0.3 } else { 0.08 }) {
+        let nids = rng.gen_range(2..=4u8);
+        let nsigners = rng.gen_range(2..=4usize);
+        let first = rng.gen_range(0..6usize);
+        for k in 0..nsigners {
+            let signer = (first + k) % 8;
+            let fee_asset = pick_fee_asset(u, rng, state, false).await;
+            let ntx = rng.gen_range(1..=3u32);
+            let base = match next_nonce.get(&signer) {
+                Some(n) => *n,
+                None => state.get_account_nonce(&u.accts[signer].addr).await.unwrap_or(0),
+            };
+            for t in 0..ntx {
+                let nact = rng.gen_range(5..=12);
+                let actions: Vec<Action> = (0..nact)
+                    .map(|_| {
+                        let mut data = vec![0u8; rng.gen_range(8..24)];
+                        rng.fill_bytes(&mut data);
+                        Action::RollupDataSubmission(RollupDataSubmission { rollup_id: RollupId::new([9 - rng.gen_range(0..nids); 32]), data: data.into(), fee_asset: fee_asset.clone() })
+                    })
+                    .collect();
+                if let Some(b) = build_tx(signer, &u.accts[signer].key, base + t, actions, "busy_block:rollup_data") {
+                    next_nonce.insert(signer, base + t + 1);
+                    out.push(b);
+                }
+            }
+        }
+    }
     // replay of the exact bytes of an earlier committed transaction
     if !committed.is_empty() && rng.gen_bool(0.3) {
         let mut r = committed[rng.gen_range(0..committed.len())].clone();
